@@ -37,7 +37,8 @@ PROP = {
                           'C16_hypothesis_needed',
                           'C16_listed_confined',
                           'C16_no_shared_writes_inventory',
-                          'C16_mutators_inventory'],
+                          'C16_mutators_inventory',
+                          'C16_alias_writes_inventory'],
     'areas': [('conc', 300, 1200)],
     'thorough_seeds': 2,
     'rule': 'distinct case lines (operation or operation list, font id, goroutine count, seed); every case is '
